@@ -3,7 +3,7 @@ Engine.apply_user_actions (2-state postcondition), plus C01.history_unwinds."""
 import os, sys
 sys.path.insert(0, os.path.dirname(os.path.dirname(os.path.abspath(__file__))))
 from vlib import common
-from vlib.rtc import eng, explore, gen
+from vlib.rtc import eng, explore, gen, triage
 
 ALL_SEEDS = ("basic", "refs", "lookup", "summary", "twoway", "twoway_list", "trigger", "prevnext",
              "choices")
@@ -37,14 +37,14 @@ class UndoMonitor(explore.Monitor):
       return [("C01.undo_restores", {"error": "undo raised %r" % (ex,), "undo": undo})]
     d = eng.diff_snapshots(st["pre"], eng.snapshot(e))
     if d:
-      return [("C01.undo_restores", {"diff": d, "undo": undo})]
+      return [("C01.undo_restores", {"diff": d, "undo": undo, "sig": triage.diff_signature(e, d)})]
     try:
       g2 = eng.apply(e, [["ApplyDocActions", stored]])
     except Exception as ex:
       return [("C03.redo_reproduces", {"error": "redo raised %r" % (ex,), "stored": stored})]
     d = eng.diff_snapshots(post, eng.snapshot(e))
     if d:
-      return [("C03.redo_reproduces", {"diff": d, "stored": stored})]
+      return [("C03.redo_reproduces", {"diff": d, "stored": stored, "sig": triage.diff_signature(e, d)})]
     st["stack"].append(eng.undo_reprs(g2))
     return []
 
@@ -55,15 +55,49 @@ class UndoMonitor(explore.Monitor):
       except Exception as ex:
         return [("C01.history_unwinds", {"error": "undo raised %r" % (ex,)})]
     d = eng.diff_snapshots(st["initial"], eng.snapshot(e))
-    return [("C01.history_unwinds", {"diff": d})] if d else []
+    return [("C01.history_unwinds", {"diff": d, "sig": triage.diff_signature(e, d)})] if d else []
 
   def classify(self, clause, detail, bundle, history):
-    return clause
+    """Root-cause signature from the shrunk witness: what differs (kinds of columns), or the
+    error pattern; plus the kinds of user actions of the whole shrunk history."""
+    kinds = {k.split("(")[0].split("@")[0] for b in history for k in triage.action_kinds(b)}
+    if "error" in detail:
+      what = triage.error_tag(detail["error"])
+      ctx = "+".join(sorted(kinds & {"RenameTable", "RenameColumn", "RemoveTable", "RemoveColumn"}))
+      return "%s|%s|%s" % (clause, what, ctx)
+    return "%s|%s" % (clause, detail.get("sig", "unknown"))
 
 
 class C01Monitor(UndoMonitor):
+  """Only the C01 clauses are reported here; a redo failure (C03's subject) ends the history."""
   def after(self, st, e, bundle, group, exc):
-    return [f for f in UndoMonitor.after(self, st, e, bundle, group, exc)]
+    fs = UndoMonitor.after(self, st, e, bundle, group, exc)
+    if any(c.startswith("C03.") for c, _ in fs):
+      st["stop"] = True
+    return [f for f in fs if f[0].startswith("C01.")]
+
+  def gen_bundle(self, st, e, g):
+    if st.get("stop"): return [["Calculate"]]
+    return g.bundle(e)
+
+  def finish(self, st, e):
+    if st.get("stop"): return []
+    return UndoMonitor.finish(self, st, e)
+
+
+class C03Monitor(UndoMonitor):
+  def after(self, st, e, bundle, group, exc):
+    fs = UndoMonitor.after(self, st, e, bundle, group, exc)
+    if any(c.startswith("C01.") for c, _ in fs):
+      st["stop"] = True
+    return [f for f in fs if f[0].startswith("C03.")]
+
+  def gen_bundle(self, st, e, g):
+    if st.get("stop"): return [["Calculate"]]
+    return g.bundle(e)
+
+  def finish(self, st, e):
+    return []
 
 
 def main():
